@@ -78,6 +78,9 @@ def run_property(pid, tier, workers=None, replay=None):
                 with open(errf.name) as fh:
                     tail = fh.read()[-1500:]
                 acc.inconclusive.append("worker %d died without result: %s" % (i, tail))
+    from . import reach
+
+    reach.summarise(acc)
     if hasattr(mod, "finalize"):
         mod.finalize(acc, tier, sd)
     if acc.evaluations == 0:
